@@ -60,7 +60,11 @@ func (l *InterceptingListener) getTlsConfigForClient(clientInfo *ClientInfo) fun
 
 		serverCertsReq := new(types.GenerateServerCertificatesRequest)
 		var protoToReturn string
-		opt := l.options
+		// Per-connection options get appended below and by the functions the
+		// options are passed to. Work on a copy without spare capacity so that
+		// such appends never write into the slice shared by all connections.
+		opt := make([]nodeenrollment.Option, len(l.options))
+		copy(opt, l.options)
 
 		for _, p := range trimmedProtos {
 			switch {
@@ -85,7 +89,7 @@ func (l *InterceptingListener) getTlsConfigForClient(clientInfo *ClientInfo) fun
 				}
 				// This will return a response either with Authorized false and no
 				// other data or Authorized true and encrypted values
-				fetchResp, err := l.fetchCredsFn(l.ctx, l.storage, req, l.options...)
+				fetchResp, err := l.fetchCredsFn(l.ctx, l.storage, req, opt...)
 				if err != nil {
 					return nil, fmt.Errorf("(%s) error handling fetch creds: %w", op, err)
 				}
